@@ -115,7 +115,7 @@ def _sched_spec(r, horizon_hint=None, max_pre=4):
 CURVES = {"toy": None, "secp112r1": "SECP112r1", "secp128r1": "SECP128r1", "nist256p": "NIST256p"}
 
 POINT_OPS = ["mulG", "mulG", "mulG", "muladd", "scaleP", "affP", "xyP", "eqPQ", "addPQ", "dblP", "pickleG", "mulP"]
-LIB_OPS = ["keygen", "signverify", "ecies", "ecdh"]
+LIB_OPS = ["keygen", "signverify", "ecies", "ecdh", "verifyP", "verifyP"]
 
 
 def _prog(r, curve, order):
@@ -179,7 +179,7 @@ def _gen_curve(w, s, curve, instr=False):
     nthreads = w.choice([2, 2, 2, 3])
     progs = [_prog(w, curve, order) for _ in range(nthreads)]
     # make sure somebody uses the generator so that the table is built inside the run
-    if not any(op[0] in ("mulG", "muladd", "keygen", "signverify") for p in progs for op in p):
+    if not any(op[0] in ("mulG", "muladd", "keygen", "signverify", "verifyP") for p in progs for op in p):
         progs[0].insert(0, ["mulG", w.randrange(2, order)])
     pre, ch = _sched_spec(s)
     return {"part": "curve", "curve": curve, "progs": progs, "world": w.getrandbits(32),
@@ -425,6 +425,11 @@ def _make_world(case):
         w.vk = w.sk.verifying_key
         w.recip_d = r.randrange(2, n - 1)
         w.recip = env.REAL_PRIV.create_from_der_fmt(refp256.sec1_private_der(w.recip_d))
+        # a verifying key that wraps the shared Jacobian point (Z != 1): verification rescales it in place
+        w.skP = _keys.SigningKey.from_secret_exponent(kp, curve=c)
+        w.sigP = w.skP.sign_deterministic(b"message for P")
+        w.vkP = _keys.VerifyingKey.from_public_point(w.P, c, validate_point=False)
+        w.vkP.pubkey.generator = w.G
         for key in (w.sk, w.recip.private_key):
             key.verifying_key.pubkey.generator = w.G
             key.privkey.public_key.generator = w.G
@@ -475,6 +480,9 @@ def _exec(w, op, tctx):
         msg = b"msg-%d" % op[1]
         sig = w.sk.sign_deterministic(msg)
         return (sig.hex(), bool(w.vk.verify(sig, msg)))
+    if k == "verifyP":
+        ok = bool(w.vkP.verify(w.sigP, b"message for P"))
+        return (ok, int(w.P.x()), int(w.P.y()))
     if k == "ecies":
         env.install_rng(lambda n, site: tctx["entropy"](n))
         enc = env.bec2file.EccEncryptor(op[1], w.recip.public_key)
@@ -502,6 +510,8 @@ def _ref(w, op):
         return refp256.add(refp256.mul(op[1] % n, g, p, a), refp256.mul(op[2] % n, w.Paff, p, a), p, a)
     if k in ("scaleP", "affP", "xyP"):
         return w.Paff
+    if k == "verifyP":
+        return (True, w.Paff[0], w.Paff[1])
     if k == "eqPQ":
         return (True, False)
     if k == "addPQ":
